@@ -80,4 +80,27 @@ def locFromChars (s : List Char) : Option Loc :=
 
 def locFromString (s : String) : Option Loc := locFromChars s.toList
 
+/-! #### with the Biopython operator (`join` / `order`) of a multi-part location kept
+
+`Loc` itself carries no operator (every other operation ignores it); for the textual round trip the operator
+is the text before `{`, kept verbatim by `location_from_string` (`CompoundLocation(locations, operator=operator)`). -/
+
+/-- `str(location)` for a location whose compound operator is `op` -/
+def opLocChars (op : List Char) : Loc → List Char
+  | .simple p => partChars p
+  | .compound ps => op ++ '{' :: joinParts (ps.map partChars) ++ ['}']
+
+/-- `location_from_string`, returning the operator it passes to `CompoundLocation` (none for a simple location) -/
+def locFromCharsOp (s : List Char) : Option (Option (List Char) × Loc) :=
+  if !s.contains '{' then (parseSingle s).map fun p => (none, Loc.simple p)
+  else do
+    let (op, combined) ← splitFirst '{' s.dropLast
+    let parts ← (splitCommaSpace [] combined).mapM parseSingle
+    pure (some op, .compound parts)
+
+/-- the operator a location built from `op` carries -/
+def Loc.opOf (op : List Char) : Loc → Option (List Char)
+  | .simple _ => none
+  | .compound _ => some op
+
 end ASV
